@@ -58,8 +58,8 @@ ROUND 2 (seeded changes C01-r2m1, C01-r2m3 escaped; both now caught with concret
   * gen_refused_names: initializers whose const_value is a TensorProtoTensor (serde.deserialize_tensor) renamed to a
     name the tensor refuses (lone surrogate -> UnicodeEncodeError, non-string -> TypeError), op X_VSetNameRaw
     -> C01-r2m3 (value renamed before its tensor) is caught by I5 (initializer stored under its old key).
-  * NEW FINDING on the unchanged tree (known_findings.d, key io-setslice-extended-size-mismatch, both properties;
-    proposed_fixes/C01-setslice-extended-size.diff): lst[a:b:step] = items with a wrong number of items moves the
+  * FINDING (key io-setslice-extended-size-mismatch, both properties; REPAIRED by /repo a9e4f9d =
+    proposed_fixes/C01-setslice-extended-size.diff, entries now status=fixed, witness kept as an oracle-only corpus case): lst[a:b:step] = items with a wrong number of items moves the
     ownership of old and new items before list.__setitem__ rejects the size.
 
 READINGS.  "a node names a graph exactly when that graph's node sequence contains it, once" is checked on iteration,
